@@ -27,10 +27,16 @@ FLIP = {"NULL": "NOTNULL", "NOTNULL": "NULL", "FINITE": "NOTFINITE", "NOTFINITE"
 class QEval:
     """value = ('data',) | ('pred', P) element-wise | ('q', Q, P) reduced."""
 
-    def __init__(self, ctx, fi, env):
+    def __init__(self, ctx, fi, env, sub=None):
         self.ctx, self.fi, self.env = ctx, fi, env
+        self.sub = sub
 
     def ev(self, e):
+        if self.sub is not None:
+            return self.sub(e)
+        return self.ev0(e)
+
+    def ev0(self, e):
         if isinstance(e, ast.Name):
             return self.env.get(e.id, ("unknown", e.id))
         if isinstance(e, ast.UnaryOp) and isinstance(e.op, (ast.Invert, ast.Not)):
@@ -77,6 +83,86 @@ class QEval:
         return ("unknown", norm(e))
 
 
+class QInterp:
+    """Path interpreter for is_case_missing in the (quantifier, predicate)
+    domain: `method` is a known constant, data values are abstract.  In-repo
+    helpers are inlined.  -> ('return', v) | ('raise',) | ('fall', env)"""
+
+    def __init__(self, ctx, method):
+        self.ctx, self.method = ctx, method
+
+    def cond(self, fi, t, env):
+        if isinstance(t, ast.Compare) and len(t.ops) == 1 and isinstance(t.ops[0], (ast.Eq, ast.NotEq)) and isinstance(t.left, ast.Name) and env.get(t.left.id, (None,))[0] == "const" \
+                and isinstance(t.comparators[0], ast.Constant):
+            r = env[t.left.id][1] == t.comparators[0].value
+            return r if isinstance(t.ops[0], ast.Eq) else not r
+        if isinstance(t, ast.UnaryOp) and isinstance(t.op, ast.Not):
+            r = self.cond(fi, t.operand, env)
+            return None if r is None else not r
+        return None
+
+    def ev(self, fi, e, env):
+        if isinstance(e, ast.Constant):
+            return ("const", e.value)
+        if isinstance(e, ast.Name) and e.id in env:
+            return env[e.id]
+        if isinstance(e, ast.Call):
+            from ..util import callee_func
+            cf = callee_func(self.ctx, fi, e)
+            if cf is not None and cf.qualname != CASE + ".is_case_missing":
+                from ..callgraph import bind_call
+                b, _, _ = bind_call(e, cf)
+                sub = {p_: self.ev(fi, a_, env) for p_, a_ in b.items()}
+                r = self.run(cf, list(cf.node.body), sub)
+                if r[0] == "return":
+                    return r[1]
+                if r[0] == "raise":
+                    raise _Raised()
+                return ("unknown", "helper %s does not return" % cf.name)
+        q = QEval(self.ctx, fi, env, sub=None)
+        q.sub = lambda x: (q.ev0(x) if x is e else self.ev(fi, x, env))
+        return q.ev0(e)
+
+    def run(self, fi, stmts, env):
+        env = dict(env)
+        for s in stmts:
+            if isinstance(s, ast.Expr) and isinstance(s.value, ast.Constant):
+                continue
+            if isinstance(s, (ast.Import, ast.ImportFrom, ast.Pass)):
+                continue
+            if isinstance(s, ast.Assign) and len(s.targets) == 1 and isinstance(s.targets[0], ast.Name):
+                env[s.targets[0].id] = self.ev(fi, s.value, env)
+                continue
+            if isinstance(s, ast.If):
+                c = self.cond(fi, s.test, env)
+                if c is None:
+                    raise AnalysisError("is_case_missing: undecided branch `%s`" % norm(s.test))
+                r = self.run(fi, s.body if c else s.orelse, env)
+                if r[0] != "fall":
+                    return r
+                env = r[1]
+                continue
+            if isinstance(s, ast.Try):
+                try:
+                    r = self.run(fi, s.body, env)
+                except _Raised:
+                    return ("raise",)
+                if r[0] != "fall":
+                    return r
+                env = r[1]
+                continue
+            if isinstance(s, ast.Return):
+                return ("return", self.ev(fi, s.value, env) if s.value is not None else ("const", None))
+            if isinstance(s, ast.Raise):
+                return ("raise",)
+            raise AnalysisError("is_case_missing: statement `%s`" % norm(s)[:50])
+        return ("fall", env)
+
+
+class _Raised(Exception):
+    pass
+
+
 def quantifier_rule(ctx, rid):
     rr = ctx.rule(rid, "is_case_missing: for all variables and positions null / not finite; absent coordinates -> True; unknown method raises", floor=4)
     f = ctx.prog.need_func(CASE + ".is_case_missing")
@@ -84,38 +170,27 @@ def quantifier_rule(ctx, rid):
     ctx.touch(f, g)
     want = {"isnull": ("q", "FORALL", "NULL"), "isfinite": ("q", "FORALL", "NOTFINITE")}
     for meth, target in want.items():
-        fl = Flow(g, {"method": const(meth)}).run()
-        env = {"ds": ("data",)}
-        # straight-line abstract evaluation along the feasible assignments (in CFG order)
-        order = sorted((n for n in g.nodes if n.id in fl.visited and n.kind == "stmt" and isinstance(n.ast, ast.Assign)), key=lambda n: n.lineno)
-        rets = [n for n in g.nodes if n.id in fl.visited and n.kind == "stmt" and isinstance(n.ast, ast.Return)]
-        q = QEval(ctx, f, env)
-        for n in order:
-            t = n.ast.targets[0]
-            if isinstance(t, ast.Name):
-                env[t.id] = q.ev(n.ast.value)
-        final = None
-        for r in rets:
-            if isinstance(r.ast.value, ast.Constant):
-                continue
-            final = q.ev(r.ast.value)
+        qi = QInterp(ctx, meth)
+        try:
+            res = qi.run(f, list(f.node.body), {"ds": ("data",), "method": ("const", meth), "setting": ("const", "loc")})
+        except _Raised:
+            res = ("raise",)
+        final = res[1] if res[0] == "return" else None
         if final == target:
             rr.ok("method=%r: returns %s" % (meth, "forall variables, positions: %s" % target[2]))
-        elif final is None:
-            rr.bad(ctx.finding(rid, f, f.node, "method=%r: no data-dependent value is returned" % meth, construct="no-return " + meth), "quantifier %s" % meth)
-        elif final[0] == "unknown":
-            bad_assign = [n for n in order if isinstance(n.ast.targets[0], ast.Name) and env.get(n.ast.targets[0].id, ("",))[0] == "unknown"]
-            nd = bad_assign[0].ast if bad_assign else f.node
-            rr.bad(ctx.finding(rid, f, nd, "method=%r: the missing test is `%s`, which is not one of the recognised forms of 'every value of every variable is %s' (for isfinite the criterion must be np.isfinite itself, so that nan, +inf and -inf all count as no data)"
-                               % (meth, final[1][:80], "null" if meth == "isnull" else "non-finite"), construct="criterion-unrecognised " + meth), "quantifier %s" % meth)
+        elif res[0] == "raise":
+            rr.bad(ctx.finding(rid, f, f.node, "method=%r is rejected" % meth, construct="method-rejected " + meth), "quantifier %s" % meth)
+        elif final is None or final[0] in ("unknown", "const", "data", "pred"):
+            rr.bad(ctx.finding(rid, f, f.node, "method=%r: the missing test is `%s`, which is not one of the recognised forms of 'every value of every variable is %s' (for isfinite the criterion must be np.isfinite itself, so that nan, +inf and -inf all count as no data)"
+                               % (meth, (final[1] if final and len(final) > 1 else final), "null" if meth == "isnull" else "non-finite"), construct="criterion-unrecognised " + meth), "quantifier %s" % meth)
         else:
-            rr.bad(ctx.finding(rid, f, rets[-1].ast if rets else f.node, "method=%r: is_case_missing returns '%s positions: %s' instead of 'for all positions and variables: %s': locations with some data are reported missing, or empty ones are not"
+            rr.bad(ctx.finding(rid, f, f.node, "method=%r: is_case_missing returns '%s positions: %s' instead of 'for all positions and variables: %s': locations with some data are reported missing, or empty ones are not"
                                % (meth, "there exist" if final[1] == "EXISTS" else "for all", final[2], target[2]), construct="quantifier %s %s %s" % (meth, final[1], final[2])), "quantifier %s" % meth)
-    # unknown method raises
-    fl = Flow(g, {"method": const("something-else")}).run()
-    raised = [n for n in g.nodes if n.id in fl.visited and n.kind == "stmt" and isinstance(n.ast, ast.Raise)]
-    datarets = [n for n in g.nodes if n.id in fl.visited and n.kind == "stmt" and isinstance(n.ast, ast.Return) and not isinstance(n.ast.value, ast.Constant)]
-    if raised and not datarets:
+    try:
+        res = QInterp(ctx, "something-else").run(f, list(f.node.body), {"ds": ("data",), "method": ("const", "something-else"), "setting": ("const", "loc")})
+    except _Raised:
+        res = ("raise",)
+    if res[0] == "raise":
         rr.ok("unknown method raises")
     else:
         rr.bad(ctx.finding(rid, f, f.node, "an unknown method does not raise", construct="unknown-method"), "unknown method")
@@ -127,7 +202,7 @@ def quantifier_rule(ctx, rid):
             body = h.ast.body
             if len(body) == 1 and isinstance(body[0], ast.Return) and isinstance(body[0].value, ast.Constant) and body[0].value.value is True:
                 okk = True
-    sel_in_try = any(isinstance(t, ast.Try) and any(isinstance(c, ast.Call) and isinstance(c.func, ast.Attribute) and c.func.attr == "sel" for s in t.body for c in ast.walk(s)) for t in ast.walk(f.node))
+    sel_in_try = any(isinstance(t, ast.Try) and any(isinstance(c, ast.Call) and isinstance(c.func, ast.Attribute) and c.func.attr == "sel" for s_ in t.body for c in ast.walk(s_)) for t in ast.walk(f.node))
     if okk and sel_in_try:
         rr.ok("absent coordinates (KeyError from .sel) -> True")
     else:
@@ -160,7 +235,14 @@ def enumeration_rule(ctx, rid):
         else:
             rr.bad(ctx.finding(rid, f, sc, "`set(ignore_dims)` is applied without first excluding str: ignore_dims='time' becomes {'t','i','m','e'}, the dimension is not ignored and partially filled cells are reported missing", construct="ignore-dims-str"), "ignore_dims str")
     fa = single_def(f, "fn_args", g)
-    if fa and norm(fa[1]) == "tuple((coo for coo in ds.dims if coo not in ignore_dims))":
+    def _dims_filter(e):
+        if isinstance(e, ast.Call) and isinstance(e.func, ast.Name) and e.func.id == "tuple" and len(e.args) == 1 and isinstance(e.args[0], (ast.GeneratorExp, ast.ListComp)):
+            ge = e.args[0]
+            if len(ge.generators) == 1 and isinstance(ge.generators[0].target, ast.Name) and norm(ge.generators[0].iter) == "ds.dims":
+                v = ge.generators[0].target.id
+                return norm(ge.elt) == v and [norm(c) for c in ge.generators[0].ifs] == ["%s not in ignore_dims" % v]
+        return False
+    if fa and _dims_filter(fa[1]):
         rr.ok("fn_args = ds.dims minus ignore_dims, in dataset order")
     elif fa and ("sorted(" in norm(fa[1]) or "set(" in norm(fa[1]) or "reversed(" in norm(fa[1])):
         rr.bad(ctx.finding(rid, f, fa[1], "the searched dimensions are re-ordered (`%s`): locations are not reported in grid order" % norm(fa[1]), construct="fn_args-order"), "fn_args")
